@@ -180,3 +180,16 @@ pub fn header_info(
 pub fn control_field_from(x: u8) -> crate::app::ControlField {
     crate::app::ControlField::from(x)
 }
+
+/// every group/variation pair the library knows
+pub fn all_variations() -> Vec<crate::app::Variation> {
+    let mut v = vec![];
+    for g in 0..=255u8 {
+        for var in 0..=255u8 {
+            if let Some(x) = crate::app::Variation::lookup(g, var) {
+                v.push(x);
+            }
+        }
+    }
+    v
+}
